@@ -6,6 +6,7 @@ import (
 	"context"
 	"errors"
 	"regexp"
+	"time"
 
 	"github.com/cloudflare/pint/internal/diags"
 	"github.com/cloudflare/pint/internal/discovery"
@@ -56,12 +57,15 @@ func verifNode(tag string, line int, cands ...string) *parser.YamlNode {
 	return &parser.YamlNode{Value: verifAtomNS(tag, 2, 2, cands...), Pos: verifPos(line)}
 }
 
+// concrete members of the domain of label / annotation values (besides 2 anonymous strings)
+var verifValueCands = []string{""}
+
 func verifMap(tag, key string, n int, line int) *parser.YamlMap {
 	m := &parser.YamlMap{Key: &parser.YamlNode{Value: key, Pos: verifPos(line)}}
 	for i := 0; i < n; i++ {
 		m.Items = append(m.Items, &parser.YamlKeyValue{
 			Key:   verifNode(tag+"k"+verifItoa(i), line+1+i),
-			Value: verifNode(tag+"v"+verifItoa(i), line+1+i, ""),
+			Value: verifNode(tag+"v"+verifItoa(i), line+1+i, verifValueCands...),
 		})
 	}
 	if n == 2 {
@@ -111,10 +115,10 @@ func verifBroken(anchored string) bool {
 	return verifAnd(verifPred2("expandOK", anchored, ""), !verifPred2("expandOK", anchored, verifRuleContent))
 }
 
-// report invariant on what the check hands on (C02's I, for concrete positions of the entry)
+// what the check hands on is renderable: a diagnostic with a position (the ordering of Problem.Lines is C02's subject,
+// harness/C02/checks.go)
 func verifCheckProblems(problems []Problem) {
 	for _, p := range problems {
-		verifAssert(p.Lines.First <= p.Lines.Last, "problem line range is ordered")
 		verifAssert(len(p.Diagnostics) > 0, "problem carries a diagnostic")
 		for _, d := range p.Diagnostics {
 			verifAssert(len(d.Pos) > 0, "diagnostic position list is not empty")
@@ -128,9 +132,131 @@ func VerifHarness_RuleName() {
 	pat := verifPattern("re")
 	re, err := NewTemplatedRegexp(pat) // what RuleNameSettings.validate does
 	verifAssume(err == nil)            // the configuration was accepted
-	verifSig("C18-mustexpand-nil-rulename", verifBroken("^"+pat+"$"))
+	verifSig("C18-mustexpand-nil", verifBroken("^"+pat+"$"))
 	c := NewRuleNameCheck(MustTemplatedRegexp(pat), "", Warning)
 	_ = re
+	_ = c.String()
+	problems := c.Check(context.Background(), e, nil)
+	verifReach("end")
+	verifCheckProblems(problems)
+}
+
+// label / annotation blocks: config.parseRule builds
+//   New{Label,Annotation}Check(MustTemplatedRegexp(key), token != "" ? MustRawTemplatedRegexp(token) : nil,
+//                              value != "" ? MustTemplatedRegexp(value) : nil, values, required, comment, severity)
+// after AnnotationSettings.validate accepted key (non-empty), token and value with the same constructors.
+// shape bits: 1 = token set, 2 = value set, 4 = required, 8 = a list of allowed values
+func verifKeyTokenValue() (keyRe, tokenRe, valueRe *TemplatedRegexp, values []string, required bool, broken bool) {
+	shape := verifParam("shape")
+	key := verifPattern("key")
+	_, err := NewTemplatedRegexp(key)
+	verifAssume(err == nil)
+	broken = verifBroken("^" + key + "$")
+	keyRe = MustTemplatedRegexp(key)
+	if shape&1 != 0 {
+		tok := verifPattern("tok")
+		_, err = NewRawTemplatedRegexp(tok)
+		verifAssume(err == nil)
+		broken = verifOr(broken, verifBroken(tok))
+		tokenRe = MustRawTemplatedRegexp(tok)
+	}
+	if shape&2 != 0 {
+		val := verifPattern("val")
+		_, err = NewTemplatedRegexp(val)
+		verifAssume(err == nil)
+		broken = verifOr(broken, verifBroken("^"+val+"$"))
+		valueRe = MustTemplatedRegexp(val)
+	}
+	required = shape&4 != 0
+	if shape&8 != 0 {
+		values = []string{"foo", "bar"}
+	}
+	return keyRe, tokenRe, valueRe, values, required, broken
+}
+
+func VerifHarness_Label() {
+	e := verifMkEntry()
+	keyRe, tokenRe, valueRe, values, required, broken := verifKeyTokenValue()
+	verifSig("C18-mustexpand-nil", broken)
+	c := NewLabelCheck(keyRe, tokenRe, valueRe, values, required, "", Warning)
+	_ = c.String()
+	problems := c.Check(context.Background(), e, nil)
+	verifReach("end")
+	verifCheckProblems(problems)
+}
+
+func VerifHarness_Annotation() {
+	e := verifMkEntry()
+	keyRe, tokenRe, valueRe, values, required, broken := verifKeyTokenValue()
+	verifSig("C18-mustexpand-nil", broken)
+	c := NewAnnotationCheck(keyRe, tokenRe, valueRe, values, required, "", Warning)
+	_ = c.String()
+	problems := c.Check(context.Background(), e, nil)
+	verifReach("end")
+	verifCheckProblems(problems)
+}
+
+// reject blocks: one validated pattern, handed over as key or as value pattern, for labels or for annotations
+// (config.parseRule: NewRejectCheck(labels, annotations, re|nil, nil|re, severity)); param mode = 0..3
+func VerifHarness_Reject() {
+	e := verifMkEntry()
+	pat := verifPattern("re")
+	_, err := NewTemplatedRegexp(pat)
+	verifAssume(err == nil)
+	verifSig("C18-mustexpand-nil", verifBroken("^"+pat+"$"))
+	re := MustTemplatedRegexp(pat)
+	var c Reject
+	switch verifParam("mode") {
+	case 0:
+		c = NewRejectCheck(true, false, re, nil, Bug)
+	case 1:
+		c = NewRejectCheck(true, false, nil, re, Bug)
+	case 2:
+		c = NewRejectCheck(false, true, re, nil, Bug)
+	default:
+		c = NewRejectCheck(false, true, nil, re, Bug)
+	}
+	_ = c.String()
+	problems := c.Check(context.Background(), e, nil)
+	verifReach("end")
+	verifCheckProblems(problems)
+}
+
+// aggregate blocks: name is validated non-empty, so parseRule always passes a non-nil name pattern
+func VerifHarness_Aggregation() {
+	e := verifMkEntry()
+	pat := verifPattern("re")
+	_, err := NewTemplatedRegexp(pat)
+	verifAssume(err == nil)
+	verifSig("C18-mustexpand-nil", verifBroken("^"+pat+"$"))
+	c := NewAggregationCheck(MustTemplatedRegexp(pat), verifAtomNS("alabel", 2, 2), verifParam("keep") == 1, "", Warning)
+	_ = c.String()
+	problems := c.Check(context.Background(), e, nil)
+	verifReach("end")
+	verifCheckProblems(problems)
+}
+
+// link blocks: config.parseRule: NewRuleLinkCheck(MustTemplatedRegexp(regex), uri, timeout, headers, comment, severity).
+// Annotation values range over two URLs, a non-URL and anonymous (scheme-less) strings; param uri: 0 = no rewrite,
+// 1 = the rewrite template ":" (any text that is not a URL), 2 = a template with a capture group reference.
+func VerifHarness_RuleLink() {
+	verifValueCands = []string{"", "http://example.com/x", "https://example.com/y", "ftp://example.com/z", "http://[::1"}
+	e := verifMkEntry()
+	pat := verifPattern("re")
+	_, err := NewTemplatedRegexp(pat)
+	verifAssume(err == nil)
+	uri := ""
+	switch verifParam("uri") {
+	case 1:
+		uri = ":"
+	case 2:
+		uri = "http://$1/"
+	}
+	verifSig("C18-mustexpand-nil", verifBroken("^"+pat+"$"))
+	// genuine defect found while modelling this check (notes/C18.md): link { uri = "<template>" } is not validated and the
+	// error of http.NewRequestWithContext is dropped; a rewritten URI that does not parse gives a nil request
+	verifSig("C18-link-uri-nil-request", uri != "")
+	c := NewRuleLinkCheck(MustTemplatedRegexp(pat), uri, time.Minute, nil, "", Bug)
 	_ = c.String()
 	problems := c.Check(context.Background(), e, nil)
 	verifReach("end")
